@@ -13,6 +13,42 @@ package fasthttp
 //@   class w kept: the body-writer adapter holds only a back pointer to the request itself
 //@   class secureErrorLogMessage kept: server configuration copied into the request, not request state
 //@   class keepBodyBuffer kept: buffer-ownership mode chosen by the owner of the request
+//@   ensures[form-dropped] @C35 req.multipartForm == nil
+
+// C35: the reset chain removes the temporary files of a parsed multipart form: Reset -> resetSkipHeader -> ResetBody ->
+// RemoveMultipartFormFiles -> multipart.Form.RemoveAll, and forgets the form afterwards.
+//@ func Request.resetSkipHeader
+//@   property C35 C11
+//@   mode skeleton
+//@   on call URI.Reset:
+//@     nohavoc
+//@   on call Args.Reset:
+//@     nohavoc
+//@   end
+//@   ensures[form-dropped] req.multipartForm == nil
+
+//@ func Request.ResetBody
+//@   property C35 C11
+//@   mode skeleton
+//@   on call bytebufferpool.ByteBuffer.Reset:
+//@     nohavoc
+//@   on call bytebufferpool.Pool.Put:
+//@     nohavoc
+//@   end
+//@   ensures[form-dropped] req.multipartForm == nil
+//@   ensures[raw-body-dropped] req.bodyRaw == nil
+
+//@ func Request.RemoveMultipartFormFiles
+//@   property C35
+//@   mode skeleton
+//@   modifies req.multipartForm, req.multipartFormBoundary
+//@   frame assumed
+//@   ghost removedAll bool = false
+//@   on call multipart.Form.RemoveAll:
+//@     effect removedAll = true
+//@   end
+//@   ensures[files-removed] old(req.multipartForm) != nil ==> removedAll
+//@   ensures[form-dropped] req.multipartForm == nil
 
 //@ func Response.Reset
 //@   property C11
@@ -46,3 +82,23 @@ package fasthttp
 //@   class logger kept: per-server logger wrapper, holds no request data
 //@   class formValueFunc kept: server configuration, re-assigned by acquireCtx
 //@   class timeoutCh kept: one-slot semaphore of the ctx itself (TimeoutError), not request data
+
+// C35: a form that was parsed successfully (its large parts may live in temporary files) is never orphaned: when
+// MultipartFormWithLimit returns, the form is either owned by the request (so the reset chain above removes its files)
+// or its files were removed on the spot.
+//@ func Request.MultipartFormWithLimit results form err
+//@   property C35
+//@   mode skeleton
+//@   ghost live bool = false
+//@   on call multipart.Reader.ReadForm -> f, e:
+//@     ensures e == nil ==> f != nil
+//@     effect live = (e == nil)
+//@   on call readMultipartForm -> f, e:
+//@     ensures e == nil ==> f != nil
+//@     effect live = (e == nil)
+//@   on call Request.RemoveMultipartFormFiles:
+//@     also
+//@     effect live = false
+//@   end
+//@   ensures[parsed-form-is-owned-or-removed] live ==> req.multipartForm != nil && form == req.multipartForm
+//@   ensures[error-returns-no-form] err != nil ==> form == nil
